@@ -5,39 +5,39 @@
 set -u
 P=$1; shift
 CHECKS=${@:-$P}
-W=/tmp/seed/$P
+BASE=${SEEDBASE:-/tmp/seed}; SUF=${SEEDSUFFIX:-}; W=$BASE/$P
 export GOFLAGS=-mod=mod GOPROXY=off GOSUMDB=off GOTOOLCHAIN=local
 cd $W || exit 2
-git diff -- . ':(exclude)demo' ':(exclude).scratch' > /tmp/seed/$P.patch
-[ -s /tmp/seed/$P.patch ] || { echo "no source change in $W"; exit 2; }
-echo "== patch: $(grep -c '^[-+][^-+]' /tmp/seed/$P.patch) changed lines in $(grep '^+++ ' /tmp/seed/$P.patch | tr '\n' ' ')"
+git diff -- . ':(exclude)demo' ':(exclude).scratch' > $BASE/$P.patch
+[ -s $BASE/$P.patch ] || { echo "no source change in $W"; exit 2; }
+echo "== patch: $(grep -c '^[-+][^-+]' $BASE/$P.patch) changed lines in $(grep '^+++ ' $BASE/$P.patch | tr '\n' ' ')"
 go build ./... >/dev/null 2>&1 && echo "build: ok" || echo "build: FAIL"
-go test -vet=off -count=1 ./... >/tmp/seed/$P.test.log 2>&1 && echo "tests: pass" || { echo "tests: FAIL"; tail -5 /tmp/seed/$P.test.log; }
+go test -vet=off -count=1 ./... >$BASE/$P.test.log 2>&1 && echo "tests: pass" || { echo "tests: FAIL"; tail -5 $BASE/$P.test.log; }
 RUN=$(ls demo/run.sh 2>/dev/null)
 if [ -n "$RUN" ]; then
-  (timeout 900 bash demo/run.sh >/tmp/seed/$P.demo.with.log 2>&1); WITH=$?
-  git apply -R /tmp/seed/$P.patch
-  (timeout 900 bash demo/run.sh >/tmp/seed/$P.demo.without.log 2>&1); WITHOUT=$?
-  git apply /tmp/seed/$P.patch
+  (timeout 900 bash demo/run.sh >$BASE/$P.demo.with.log 2>&1); WITH=$?
+  git apply -R $BASE/$P.patch
+  (timeout 900 bash demo/run.sh >$BASE/$P.demo.without.log 2>&1); WITHOUT=$?
+  git apply $BASE/$P.patch
   echo "demo: with change exit=$WITH, without exit=$WITHOUT"
 else
   echo "demo: no demo/run.sh"; WITH=-1; WITHOUT=-1
 fi
-D=/verif/seeded/$P
+D=/verif/seeded/$P$SUF
 mkdir -p $D
-cp /tmp/seed/$P.patch $D/patch.diff
+cp $BASE/$P.patch $D/patch.diff
 rm -rf $D/demo; mkdir -p $D/demo
 (cd demo 2>/dev/null && find . -type f \( -name '*.go' -o -name '*.sh' -o -name '*.txt' -o -name 'go.mod' -o -name '*.md' -o -name '*.yaml' \) -not -path './_*' -not -path './bin/*' -size -200k | while read f; do mkdir -p $D/demo/$(dirname $f); cp $f $D/demo/$f; done)
-tail -15 /tmp/seed/$P.demo.with.log > $D/demo/output_with_change.txt 2>/dev/null
-tail -5 /tmp/seed/$P.demo.without.log > $D/demo/output_without_change.txt 2>/dev/null
+tail -15 $BASE/$P.demo.with.log > $D/demo/output_with_change.txt 2>/dev/null
+tail -5 $BASE/$P.demo.without.log > $D/demo/output_without_change.txt 2>/dev/null
 # run the checks against /repo with the change applied
 cd /verif
-git -C /repo apply /tmp/seed/$P.patch || { echo "patch does not apply to /repo"; exit 2; }
+git -C /repo apply $BASE/$P.patch || { echo "patch does not apply to /repo"; exit 2; }
 RES=""
 for c in $CHECKS; do
-  timeout 1800 ./check $c --tier quick > /tmp/seed/$P.check.$c.log 2>&1; E=$?
-  echo "check $c: exit=$E  $(grep -c '^VIOLATION' /tmp/seed/$P.check.$c.log) violation groups; $(grep -c '^DRIFT' /tmp/seed/$P.check.$c.log) drift"
-  grep -A1 '^VIOLATION' /tmp/seed/$P.check.$c.log | grep clause= | head -4
+  timeout 1800 ./check $c --tier quick > $BASE/$P.check.$c.log 2>&1; E=$?
+  echo "check $c: exit=$E  $(grep -c '^VIOLATION' $BASE/$P.check.$c.log) violation groups; $(grep -c '^DRIFT' $BASE/$P.check.$c.log) drift"
+  grep -A1 '^VIOLATION' $BASE/$P.check.$c.log | grep clause= | head -4
   RES="$RES $c:$E"
 done
 git -C /repo checkout -- .
